@@ -5,6 +5,7 @@ import (
 	"encoding/json"
 	"fmt"
 	"io"
+	"testing/iotest"
 	"time"
 
 	hccrypto "github.com/brutella/hc/crypto"
@@ -17,11 +18,12 @@ import (
 
 type c06Case struct {
 	Secret int    `json:"secret"`
-	Lens   []int  `json:"lens"`   // message lengths, sent in order on one session
-	Fill   string `json:"fill"`   // pattern | zero | ff
-	Reader string `json:"reader"` // how the source io.Reader delivers the payload
-	Dir    string `json:"dir"`    // a2c (accessory encrypts) | c2a (controller-side session encrypts)
-	Start  uint64 `json:"start"`  // frame counters preset to this value through reflection (0 = untouched)
+	Lens   []int  `json:"lens"`           // message lengths, sent in order on one session
+	Fill   string `json:"fill"`           // pattern | zero | ff
+	Reader string `json:"reader"`         // how the source io.Reader delivers the payload
+	Dir    string `json:"dir"`            // a2c (accessory encrypts) | c2a (controller-side session encrypts)
+	Start  uint64 `json:"start"`          // frame counters preset to this value through reflection (0 = untouched)
+	Pipe   bool   `json:"pipe,omitempty"` // the frames of all messages sit in one reader, Decrypt is called until it is drained
 }
 
 var c06Secrets = [][32]byte{
@@ -275,6 +277,84 @@ func c06RefToHC(c *fw.Ctx, cas c06Case) {
 	c.Class(fmt.Sprintf("ref-to-hc/%s/frames=%d", cas.Dir, ctr))
 }
 
+// c06Pipe: the frames of several messages sit in ONE source reader (a peer that pipelines its messages) and the
+// receiving end calls Decrypt repeatedly on it until it is drained: the concatenation of what comes out is the
+// concatenation of what went in; nothing is skipped and nothing is read ahead and dropped.
+func c06Pipe(c *fw.Ctx, cas c06Case) {
+	c.Eval(1)
+	secret := c06Secrets[cas.Secret]
+	a2c, _ := refctl.SessionKeys(secret[:])
+	for _, producer := range []string{"hc", "reference"} {
+		dec, err := hccrypto.NewSecureClientSessionFromSharedKey(secret)
+		if err != nil {
+			c.Report("pipe/session-error", err.Error(), cas)
+			return
+		}
+		enc, _ := hccrypto.NewSecureSessionFromSharedKey(secret)
+		var wire, plain []byte
+		var ctr uint64
+		for i, n := range cas.Lens {
+			msg := fill(n, cas.Fill, byte(17*i+3))
+			plain = append(plain, msg...)
+			if producer == "reference" {
+				wire = append(wire, refctl.Frames(a2c, &ctr, msg)...)
+				continue
+			}
+			r, err := enc.Encrypt(bytes.NewReader(msg))
+			if err != nil {
+				c.Report("pipe/encrypt-error", err.Error(), cas)
+				return
+			}
+			ct, _ := io.ReadAll(r)
+			wire = append(wire, ct...)
+		}
+		src := bytes.NewReader(wire)
+		var rd io.Reader = src
+		if cas.Reader == "onebyte" {
+			rd = iotest.OneByteReader(src)
+		}
+		var got []byte
+		calls := 0
+		for src.Len() > 0 && calls < 3*len(cas.Lens)+len(wire)/1024+4 {
+			calls++
+			var pt []byte
+			if p := guard(func() {
+				r, e := dec.Decrypt(rd)
+				if e != nil {
+					err = e
+					return
+				}
+				pt, err = io.ReadAll(r)
+			}); p != nil {
+				c.Report("pipe/decrypt-panic/"+producer, fmt.Sprintf("Decrypt panics: %v", p), cas)
+				return
+			}
+			if err != nil {
+				c.Report("pipe/decrypt-error/"+producer+"/"+cas.Reader, fmt.Sprintf("Decrypt call %d on a reader holding the frames of %d messages %v fails after %d of %d bytes: %v", calls, len(cas.Lens), cas.Lens, len(got), len(plain), err), cas)
+				return
+			}
+			got = append(got, pt...)
+		}
+		if !bytes.Equal(got, plain) {
+			c.Report("pipe/differs/"+producer+"/"+cas.Reader, fmt.Sprintf("%d Decrypt calls drained a reader holding the frames of messages %v: %d bytes came out, %d went in (first difference at %d)", calls, cas.Lens, len(got), len(plain), firstDiff(got, plain)), cas)
+			return
+		}
+	}
+	c.Class(fmt.Sprintf("pipe/%s/messages=%d", cas.Reader, len(cas.Lens)))
+}
+
+func firstDiff(a, b []byte) int {
+	for i := 0; i < len(a) && i < len(b); i++ {
+		if a[i] != b[i] {
+			return i
+		}
+	}
+	if len(a) < len(b) {
+		return len(a)
+	}
+	return len(b)
+}
+
 func c06Run(c *fw.Ctx) {
 	idx := 0
 	do := func(cas c06Case, ref bool) {
@@ -285,7 +365,9 @@ func c06Run(c *fw.Ctx) {
 		if idx%5000 == 1 {
 			c.Sample(cas)
 		}
-		if ref {
+		if cas.Pipe {
+			c06Pipe(c, cas)
+		} else if ref {
 			c06RefToHC(c, cas)
 		} else {
 			c06Exec(c, cas)
@@ -333,6 +415,18 @@ func c06Run(c *fw.Ctx) {
 			}
 		}
 	}
+	// pipelined messages: all frames in one reader
+	pipeLens := []int{1, 5, 1023, 1024, 1025, 2048}
+	for _, a := range pipeLens {
+		for _, b := range pipeLens {
+			for _, rd := range []string{"buffer", "onebyte"} {
+				do(c06Case{Secret: 2, Lens: []int{a, b}, Fill: "pattern", Reader: rd, Dir: "a2c", Pipe: true}, false)
+				for _, d := range pipeLens {
+					do(c06Case{Secret: 2, Lens: []int{a, b, d}, Fill: "pattern", Reader: rd, Dir: "a2c", Pipe: true}, false)
+				}
+			}
+		}
+	}
 	// counters near and beyond 2^32 and 2^63 (preset through reflection): wire format and round trip
 	for _, st := range []uint64{1<<32 - 2, 1 << 32, 1<<32 + 1, 1 << 40, 1<<63 - 1, 1 << 63, 1<<64 - 5} {
 		for _, dir := range []string{"a2c", "c2a"} {
@@ -353,7 +447,7 @@ func init() {
 	fw.Register(&fw.Check{
 		ID:     "C06",
 		Level:  "exploration",
-		Rule:   "exhaustive enumeration of payload lengths 0..4097 (plus 8191,8192,8193,65535,65536,65537) × 6 source-reader behaviours (buffer, one byte per Read, halves, 1000-byte chunks, data together with EOF, zero-length reads interleaved) × directions, contents {pattern, zero, 0xFF} × 3 secrets on a length grid, all message sequences of length 2–3 over 7 boundary lengths, a 302-message counter run; frame counters preset (reflection) to 2^32−2, 2^32, 2^32+1, 2^40, 2^63−1, 2^63, 2^64−5; each executed on hc's real sessions and compared byte-for-byte with the reference framing, then decrypted by hc's opposite end, and reference ciphertext decrypted by hc. distinct_nontrivial = distinct (direction, reader, frame count) classes",
+		Rule:   "exhaustive enumeration of payload lengths 0..4097 (plus 8191,8192,8193,65535,65536,65537) × 6 source-reader behaviours (buffer, one byte per Read, halves, 1000-byte chunks, data together with EOF, zero-length reads interleaved) × directions, contents {pattern, zero, 0xFF} × 3 secrets on a length grid, all message sequences of length 2–3 over 7 boundary lengths, a 302-message counter run; every sequence of 2–3 messages over 6 lengths with all frames in ONE reader (pipelined peer), drained by repeated Decrypt calls, from a buffer and one byte per Read, produced by hc and by the reference; frame counters preset (reflection) to 2^32−2, 2^32, 2^32+1, 2^40, 2^63−1, 2^63, 2^64−5; each executed on hc's real sessions and compared byte-for-byte with the reference framing, then decrypted by hc's opposite end, and reference ciphertext decrypted by hc. distinct_nontrivial = distinct (direction, reader, frame count) classes",
 		Run:    c06Run,
 		Budget: func(string) time.Duration { return 20 * time.Minute },
 		Replay: func(c *fw.Ctx, raw json.RawMessage) {
